@@ -201,6 +201,23 @@ fn main() {
                 bparser.select_other_charset(c);
             } else if let Some(b) = step.get("use_utf8").and_then(|c| c.as_bool()) {
                 parser.set_use_utf8(b);
+            } else if let Some(kind) = step.get("dispatch").and_then(|c| c.as_str()) {
+                // probe a dispatcher of the real crate with a recording listener
+                let fin = step["final"].as_str().unwrap_or("").to_string();
+                let params: Vec<u32> = step["params"].as_array().map(|a| a.iter().filter_map(|x| x.as_u64()).map(|x| x as u32).collect()).unwrap_or_default();
+                let private = step["private"].as_bool().unwrap_or(false);
+                let mut c = memterm::counter::Counter::new();
+                match kind {
+                    "csi" => c.csi_dispatch(&fin, &params[..], private),
+                    "escape" => c.escape_dispatch(&fin),
+                    _ => c.basic_dispatch(&fin),
+                }
+                println!("DISPATCH-PROBE {} {:?} params={:?} private={} -> recorded calls: {:?}", kind, fin, params, private, c.counts);
+                if let Some(exp) = step.get("expect_call").and_then(|e| e.as_str()) {
+                    if c.counts.get(exp).copied().unwrap_or(0) != 1 {
+                        return Err(format!("dispatch probe: expected one call of {}, recorded {:?}", exp, c.counts));
+                    }
+                }
             } else if let Some(set) = step.get("set") {
                 let mut s = screen.lock().map_err(|_| "listener mutex poisoned".to_string())?;
                 apply_set(&mut s, set);
